@@ -186,7 +186,7 @@ func cmdCheck(args []string) int {
 	}
 	genS := time.Since(start).Seconds() - loadS
 
-	d := &Discharger{dir: scratch, timeoutS: 20, seed: seed, par: 12}
+	d := &Discharger{dir: scratch, timeoutS: 30, seed: seed, par: 10}
 	if *tier == "thorough" {
 		d.timeoutS = 120
 	}
